@@ -16,7 +16,8 @@ type binaryStreamPProfProtoDec struct {
 }
 
 func ns(timestamp uint64) uint64 {
-	for timestamp < 1000000000000000000 {
+	// 0 stays 0: multiplying it by 10 never reaches the nanosecond range
+	for timestamp > 0 && timestamp < 1000000000000000000 {
 		timestamp *= 10
 	}
 	return timestamp
